@@ -56,7 +56,10 @@ func c09Spec() world.Spec {
 	noslo.SLO = nil
 	dsaSP := stdSP(7)
 	dsaSP.KeyNames = []string{"sp-dsa"}
-	s.SPs = append(s.SPs, ec, ed, art, noslo, dsaSP)
+	// DSA keys of the larger parameter sizes (L=2048 with N=224 / N=256): q is longer than a SHA-1 digest
+	dsa224, dsa256 := stdSP(8), stdSP(9)
+	dsa224.KeyNames, dsa256.KeyNames = []string{"sp-dsa-224"}, []string{"sp-dsa-256"}
+	s.SPs = append(s.SPs, ec, ed, art, noslo, dsaSP, dsa224, dsa256)
 	s.Requests = []world.RequestSpec{
 		{ID: "req-pending", AppID: "app-0", RelayState: "rs-pending", ACS: "https://sp0.example/acs/post", Binding: world.BindPost, AuthRequestID: "_authn1"},
 		{ID: "req-done-post", AppID: "app-0", RelayState: "rs-done", ACS: "https://sp0.example/acs/post", Binding: world.BindPost, AuthRequestID: "_authn2", UserID: "uid-0", Done: true},
@@ -448,7 +451,9 @@ func c09SigBlobs() map[string]string {
 }
 
 // c09DSASign signs the octets with the sp-dsa key (SHA-256 digest for the dsa-sha256 URI, SHA-1 otherwise), DER (r, s), base64.
-func c09DSASign(octets, alg string) string {
+func c09DSASign(octets, alg string) string { return c09DSASignWith("sp-dsa", octets, alg) }
+
+func c09DSASignWith(keyName, octets, alg string) string {
 	var sum []byte
 	if strings.Contains(alg, "sha256") {
 		h := sha256.Sum256([]byte(octets))
@@ -457,7 +462,7 @@ func c09DSASign(octets, alg string) string {
 		h := sha1.Sum([]byte(octets))
 		sum = h[:]
 	}
-	r, s, err := dsa.Sign(c09Rand{}, world.Key("sp-dsa").DSA, sum)
+	r, s, err := dsa.Sign(c09Rand{}, world.Key(keyName).DSA, sum)
 	if err != nil {
 		panic(err)
 	}
@@ -481,7 +486,7 @@ func TestC09SigAlg(t *testing.T) {
 	runPlain(t, col, "TestC09", func(fail func(*ev.Violation, any)) {
 		w := mustBuild(spec)
 		n, nt := 0, 0
-		for _, spn := range []int{0, 1, 2, 3, 4, 7} {
+		for _, spn := range []int{0, 1, 2, 3, 4, 7, 8, 9} {
 			xmlb := xt.Write(spsim.NewAuthnReq("_sigalg", stdSP(spn).EntityID).Tree(plainStyle), plainStyle.W)
 			msg := base64.StdEncoding.EncodeToString(spsim.Deflate(xmlb))
 			for _, alg := range c09SigAlgs {
@@ -491,7 +496,11 @@ func TestC09SigAlg(t *testing.T) {
 							blob := blob
 							if blob == "@dsa-valid" {
 								// what an SP holding the registered DSA key would send for this query
-								blob = c09DSASign("SAMLRequest="+qesc(msg)+rs+"&SigAlg="+qesc(alg), alg)
+								keyName := "sp-dsa"
+								if spn >= 7 {
+									keyName = spec.SPs[spn].KeyNames[0]
+								}
+								blob = c09DSASignWith(keyName, "SAMLRequest="+qesc(msg)+rs+"&SigAlg="+qesc(alg), alg)
 							}
 							q := "SAMLRequest=" + qesc(msg) + rs + "&SigAlg=" + qesc(alg) + "&Signature=" + qesc(blob)
 							req := obs.HTTPReq{Method: "GET", Path: route(spec.IdP, "sso"), RawQuery: q}
@@ -507,7 +516,7 @@ func TestC09SigAlg(t *testing.T) {
 							if v := c09Do(w, req); v != nil {
 								fail(v, C09Case{Kind: "http", Spec: spec, Req: req, Note: fmt.Sprintf("sigalg matrix sp%d alg=%s blob=%s", spn, alg, blobName)})
 							}
-							if blobName == "dsa-valid" && spn == 7 && strings.Contains(alg, "dsa-sha") && !strings.Contains(alg, "ecdsa") && where == "query" {
+							if blobName == "dsa-valid" && spn >= 7 && strings.Contains(alg, "dsa-sha") && !strings.Contains(alg, "ecdsa") && where == "query" {
 								// reach check: the DSA verification itself runs and succeeds for the genuine signature
 								if obs.Do(w.Handler, req).Status == 303 {
 									col.Count("sigalg-matrix/genuine-dsa-signature-accepted", 1)
